@@ -253,9 +253,23 @@ def decide(prop, tier, seed, cfg, scratch, index, spec_dir, contracts_dir, evide
     known, fixed = load_known()
 
     proved, failed, undecided, assumed = [], [], [], []
+    try:
+        baseline = json.load(open(os.path.join(VERIF, 'assumed_baseline.json')))
+    except Exception:
+        baseline = {}
+    changed_assumed = []
+    files_of_prop = set(u['file'] for u in units)
+    for w in index['wraps']:
+        if w.get('file') in files_of_prop:
+            for sib in w.get('trait_impl_methods_assumed', []):
+                if sib['ident'] in baseline and baseline[sib['ident']] != sib['sha256']:
+                    changed_assumed.append(sib['ident'])
     for u in units:
         if u['assumed']:
             assumed.append(u)
+            if u['ident'] in baseline and baseline[u['ident']] != u['orig_sha256']:
+                # the contract of this function is an assumption accepted for its recorded text only
+                changed_assumed.append(u['ident'])
             continue
         v = verdicts[u['uid']]
         if u.get('degraded', 0) > 0:
@@ -364,7 +378,7 @@ def decide(prop, tier, seed, cfg, scratch, index, spec_dir, contracts_dir, evide
     status = 'held'
     if violations:
         status = 'violation'
-    elif hard_global or undecided or lost or bottom_bad or (not proved and not known_hits):
+    elif hard_global or undecided or lost or bottom_bad or changed_assumed or (not proved and not known_hits):
         status = 'undecided'
     elif not verifier_ok and not only_known:
         status = 'undecided'
@@ -431,6 +445,7 @@ def decide(prop, tier, seed, cfg, scratch, index, spec_dir, contracts_dir, evide
             'file_rewrites': [r for r in index['filerewrites']],
             'repo_src_sha256': index['repo_src_sha256'],
             'known_findings_matched': [k.get('what') for k, _, _ in known_hits],
+            'assumed_functions_modified': changed_assumed,
             'status': status,
             'not_decided': cfg.get('not_decided', []),
             'witness_search': witness,
@@ -451,6 +466,8 @@ def decide(prop, tier, seed, cfg, scratch, index, spec_dir, contracts_dir, evide
         return 1
     if status == 'undecided':
         reasons = []
+        for c_ in changed_assumed:
+            reasons.append('function with an ASSUMED contract was modified: %s' % c_)
         for l in lost:
             reasons.append('lost anchor: %s' % l['reason'])
         for g in hard_global[:5]:
